@@ -96,7 +96,8 @@ def main(argv):
     cases = c.harness("c05")
     prop, corr = [], []
     stats = {"sessions_compared_with_model": 0, "texts_compared_with_model": 0, "sessions_without_model": 0,
-             "model_declined_or_out_of_fuel_texts": 0, "budget_texts": 0}
+             "model_declined_or_out_of_fuel_texts": 0, "budget_texts": 0,
+             "phase_sessions_compared": 0, "phase_texts_compared": 0, "phase_sessions_model_declined": 0}
     if cases:
         mout = c.model(cases)
         if mout:
@@ -118,6 +119,35 @@ def main(argv):
                         prop.append((len(a[4]) if len(a) > 4 else 0, replay_obj(failat, sources, "property failure: " + anoms[0].split(" ")[0],
                                                                                  anoms[:6], {"case": cid, "implementation": impl[:1500]}, entry)))
                     model = b[1]
+                    if inp.startswith("PHASE "):
+                        # the phase stream: outcome@at-rest,loops,data per text against the extracted Phases.psession_obs
+                        io, mo = impl.split(" ;; "), model.split(" ;; ")
+                        stats["phase_sessions_compared"] += 1
+                        failed_before = False
+                        for i, (x, y) in enumerate(zip(io, mo)):
+                            if y.startswith("UNSPEC") or y.startswith("FUEL"):
+                                stats["phase_sessions_model_declined"] += 1
+                                break
+                            stats["phase_texts_compared"] += 1
+                            src = unesc(sources[i]) if i < len(sources) else ""
+                            if x != y:
+                                extra = {"case": cid, "phase_stream": True, "expected": mo, "model_input": inp[:3000]}
+                                if x.split("@")[-1] != "1,0,0":
+                                    prop.append((len(a[4]), replay_obj(failat, sources, "property failure: unrest",
+                                                 ["phase-unrest: after text %d %s the interpreter is not at rest: outcome@at-rest,loop-stack depth,data-stack depth = %s (model %s)" % (i, src, x, y)],
+                                                 extra, entry)))
+                                elif failed_before or y[0] in "RCX":
+                                    what = ("phase-swallowed: text %d %s evaluates to %s; it must fail (model %s: R read error, C compile error, X run error)" if x.startswith("V:") and y[0] in "RCX"
+                                            else "phase-later: text %d %s gives %s, the model of the load phases gives %s; an earlier text of the session failed (or this one does): a failed load left something behind")
+                                    prop.append((len(a[4]), replay_obj(failat, sources, "property failure: an evaluation after a failed load differs from the phase model",
+                                                 [what % (i, src, x, y)], extra, entry)))
+                                else:
+                                    corr.append({"case": cid, "failat": failat, "text_index": i, "text": src, "implementation": x, "model": y,
+                                                 "texts": [unesc(t) for t in sources], "stream": "phase"})
+                                break
+                            if y[0] in "RCX":
+                                failed_before = True
+                        continue
                     if model == "SKIP":
                         stats["sessions_without_model"] += 1
                         continue
